@@ -24,7 +24,11 @@ fn ord(o: &OrdSpec) -> Option<String> {
         Dir::Field(vals) => {
             let mut c = String::from("CASE");
             for (i, v) in vals.iter().enumerate() {
-                c.push_str(&format!(" WHEN ({e}) = {v} THEN {i}"));
+                let lit = match field_text(*v) {
+                    Some(t) => crate::lex::enc_str(crate::util::Dialect::Sqlite, &t),
+                    None => v.to_string(),
+                };
+                c.push_str(&format!(" WHEN ({e}) = {lit} THEN {i}"));
             }
             c.push_str(&format!(" ELSE {} END", vals.len()));
             c
